@@ -2,6 +2,7 @@ from typing import Any
 
 from reactivex import Observable, abc
 from reactivex.disposable import CompositeDisposable, SingleAssignmentDisposable
+from reactivex.internal.concurrency import synchronized
 from reactivex.internal.utils import NotSet
 
 
@@ -17,6 +18,8 @@ def with_latest_from_(
             parent: Observable[Any], *children: Observable[Any]
         ) -> list[SingleAssignmentDisposable]:
             values = [NO_VALUE for _ in children]
+            on_error = synchronized(parent.lock)(observer.on_error)
+            on_completed = synchronized(parent.lock)(observer.on_completed)
 
             def subscribechild(
                 i: int, child: Observable[Any]
@@ -28,7 +31,7 @@ def with_latest_from_(
                         values[i] = value
 
                 subscription.disposable = child.subscribe(
-                    on_next, observer.on_error, scheduler=scheduler
+                    on_next, on_error, scheduler=scheduler
                 )
                 return subscription
 
@@ -44,7 +47,7 @@ def with_latest_from_(
                 subscribechild(i, child) for i, child in enumerate(children)
             ]
             disp = parent.subscribe(
-                on_next, observer.on_error, observer.on_completed, scheduler=scheduler
+                on_next, on_error, on_completed, scheduler=scheduler
             )
             parent_subscription.disposable = disp
 
